@@ -402,9 +402,19 @@ def exec_spec(spec, root):
     if t == "gseq":
         return [observe_getter_seq(spec)]
     rows = []
-    for step in steps_of(spec):
-        rows.extend(exec_step(t, step, root))
+    try:
+        for step in steps_of(spec):
+            rows.extend(exec_step(t, step, root))
+    finally:
+        while _KEPT:        # files a step left in place for the next construction of its history
+            try:
+                os.unlink(_KEPT.pop())
+            except OSError:
+                pass
     return rows
+
+
+_KEPT = []
 
 
 def exec_step(t, spec, root):
@@ -449,6 +459,9 @@ def exec_step(t, spec, root):
             return [observe_probe(p, result, exc, get, vroot, spec) for p in spec["probes"]]
         finally:
             os.chdir(root)
+            if spec.get("keep"):        # the next construction of the history reads the very same, untouched files
+                _KEPT.extend(written)
+                written = []
             for path in written:
                 try:
                     os.unlink(path)
@@ -751,6 +764,22 @@ class Plan(object):
                     steps.append({"layout": DEPTHS[(v + n) % 2], "files": files, "argv": list(argv), "load_config": con["load"],
                                   "probes": [probe]})
                 self.add({"type": "config", "steps": steps})
+
+    # ---- (A3) histories over ONE untouched file: a construction that rewrites list-valued settings for its mode
+    # (--steps-catalog puts its own formatter into config.format) is followed by a plain construction from the same file
+    def same_file_histories(self):
+        by = {o.dest: o for o in self.opts}
+        lists = [by[d] for d in ("format", "outfiles") if d in by]
+        if len(lists) < 2:
+            return
+        for n, (layout, first_argv) in enumerate([(lay[0], a) for lay in LAYOUTS[1][:3] for a in (["--steps-catalog"], ["--steps-catalog", "--dry-run"], ["-f", "steps.catalog"])]):
+            v = self.tick()
+            files = self.file_entries([layout], [[(o, "v1") for o in lists]], v)
+            depth = DEPTHS[n % 2]
+            steps = [{"layout": depth, "files": files, "argv": list(first_argv), "load_config": True, "probes": [], "keep": True},
+                     {"layout": depth, "files": [], "argv": [], "load_config": True,
+                      "probes": [self.layer_probe(o, ["v1"], "absent", "samefile%d" % n) for o in lists]}]
+            self.add({"type": "config", "steps": steps})
 
     # ---- (C) seeded subsets of options in one or two files x subsets on the command line
     def subsets(self, count):
@@ -1119,6 +1148,7 @@ def run(chk):
     plan = Plan(chk, opts)
     plan.single_option(layer_cases, 2 if chk.quick() else 8)
     plan.histories(cases, 0 if chk.quick() else 40)
+    plan.same_file_histories()
     plan.coupled(layer_cases)
     plan.subsets(120 if chk.quick() else 4000)
     plan.colour_switch(cases, 6 if chk.quick() else 30)
